@@ -327,6 +327,12 @@ func (e *Exec) callSSA(caller *frame, fn *ssa.Function, args []Value, env []Valu
 		if fn.Blocks == nil {
 			e.unsupported("no body for function " + name)
 		}
+		// reflect is a host-side shim: its real source works on unsafe pointers
+		// the shim's values do not have, so an entry the shim lacks is reported
+		// as unsupported (reduced coverage) instead of crashing the interpreter
+		if fn.Pkg != nil && fn.Pkg.Pkg.Path() == "reflect" && caller != nil && (caller.fn.Pkg == nil || caller.fn.Pkg.Pkg.Path() != "reflect") && touchesReflectValue(fn.Signature) {
+			e.unsupported("not in the reflect shim: " + name)
+		}
 	}
 	if fn.TypeParams().Len() > 0 && len(fn.TypeArgs()) == 0 {
 		e.unsupported("uninstantiated generic " + fn.String())
@@ -1107,3 +1113,35 @@ func (e *Exec) implements(t types.Type, it *types.Interface) bool {
 }
 
 var _ = token.NoPos
+
+// touchesReflectValue: does the signature mention reflect.Value or reflect.Type
+// (whose real representations the shim replaces)?
+func touchesReflectValue(sig *types.Signature) bool {
+	var is func(t types.Type) bool
+	is = func(t types.Type) bool {
+		switch u := t.(type) {
+		case *types.Named:
+			o := u.Obj()
+			return o.Pkg() != nil && o.Pkg().Path() == "reflect" && (o.Name() == "Value" || o.Name() == "Type" || o.Name() == "rtype" || o.Name() == "MapIter")
+		case *types.Pointer:
+			return is(u.Elem())
+		case *types.Slice:
+			return is(u.Elem())
+		}
+		return false
+	}
+	if r := sig.Recv(); r != nil && is(r.Type()) {
+		return true
+	}
+	for i := 0; i < sig.Params().Len(); i++ {
+		if is(sig.Params().At(i).Type()) {
+			return true
+		}
+	}
+	for i := 0; i < sig.Results().Len(); i++ {
+		if is(sig.Results().At(i).Type()) {
+			return true
+		}
+	}
+	return false
+}
